@@ -823,11 +823,43 @@ func elementLoop(c *Ctx, fn *ssa.Function, v ssa.Value, isSrc func(ssa.Value) bo
 		}
 	}
 	walk(v)
-	if len(appends) != 1 {
-		return false, fmt.Sprintf("operands are collected at %d append sites", len(appends))
+	var ap ssa.Instruction
+	var el, storeIdx ssa.Value
+	if ms, isMake := peel(v).(*ssa.MakeSlice); isMake && len(appends) == 0 {
+		// make([]T, len(src)) filled by index: out[i] = f(src[i])
+		okLen := false
+		if lc, ok := peelConv(ms.Len).(*ssa.Call); ok {
+			if b, ok := lc.Call.Value.(*ssa.Builtin); ok && b.Name() == "len" && isSrc(lc.Call.Args[0]) {
+				okLen = true
+			}
+		}
+		if !okLen {
+			return false, "the slice of results is not made as long as the operand list"
+		}
+		n := 0
+		for _, r := range referrers(ms) {
+			ia, ok := r.(*ssa.IndexAddr)
+			if !ok {
+				continue
+			}
+			for _, rr := range referrers(ia) {
+				if st, ok := rr.(*ssa.Store); ok && st.Addr == ssa.Value(ia) {
+					n++
+					ap, el, storeIdx = st, st.Val, ia.Index
+				}
+			}
+		}
+		if n != 1 {
+			return false, fmt.Sprintf("the slice of results is filled at %d store sites", n)
+		}
+	} else {
+		if len(appends) != 1 {
+			return false, fmt.Sprintf("operands are collected at %d append sites", len(appends))
+		}
+		ac := appends[0]
+		ap = ac
+		el = variadicElem(ac.Call.Args[1])
 	}
-	ap := appends[0]
-	el := variadicElem(ap.Call.Args[1])
 	e, ok := el.(*ssa.Extract)
 	if !ok || e.Index != 0 {
 		return false, "what is appended is not an operand's evaluation result"
@@ -847,6 +879,9 @@ func elementLoop(c *Ctx, fn *ssa.Function, v ssa.Value, isSrc func(ssa.Value) bo
 	ia, ok := ld.X.(*ssa.IndexAddr)
 	if !ok || !isSrc(ia.X) {
 		return false, "the evaluated operand is not an element of the operand list"
+	}
+	if storeIdx != nil && storeIdx != ia.Index {
+		return false, "an operand's result is not stored at the operand's own position"
 	}
 	ib, io := lin(ia.Index)
 	lb, isCtr := phiLower(ib)
@@ -876,7 +911,7 @@ func elementLoop(c *Ctx, fn *ssa.Function, v ssa.Value, isSrc func(ssa.Value) bo
 		}
 		return false
 	}
-	if p := c.fc.pathFrom(fn, ec, func(x ssa.Instruction) bool { return x == hdr }, func(x ssa.Instruction) bool { return x == ssa.Instruction(ap) }, cutErr); p != nil {
+	if p := c.fc.pathFrom(fn, ec, func(x ssa.Instruction) bool { return x == hdr }, func(x ssa.Instruction) bool { return x == ap }, cutErr); p != nil {
 		return false, "an operand can be evaluated without its result being combined (it is skipped on some path)"
 	}
 	return true, ""
